@@ -64,10 +64,14 @@ func level1Abstract(c *Ctx) map[*ssa.Function]pathint.AbstractSpec {
 }
 
 func level1Pairs(c *Ctx) []layout.Pair {
-	return []layout.Pair{
-		{Name: "descriptor-loop/calcDescriptorsLength=writeDescriptors", Calc: c.fn("calcDescriptorsLength"), Writer: c.fn("writeDescriptors"), ArgMap: []int{1}},
+	ps := []layout.Pair{
 		{Name: "descriptor-loop/calcDescriptorsLength=writeDescriptorsWithLength", Calc: c.fn("calcDescriptorsLength"), Writer: c.fn("writeDescriptorsWithLength"), ArgMap: []int{1}, ExtraBits: 16},
 	}
+	// the loop without its length prefix is a function of its own today; merged into the prefixed writer it is covered by that pair
+	if c.fn("writeDescriptors") != nil || c.fn("writeDescriptorsWithLength") == nil {
+		ps = append([]layout.Pair{{Name: "descriptor-loop/calcDescriptorsLength=writeDescriptors", Calc: c.fn("calcDescriptorsLength"), Writer: c.fn("writeDescriptors"), ArgMap: []int{1}}}, ps...)
+	}
+	return ps
 }
 
 // level2: table bodies, with descriptor loops abstracted.
